@@ -620,6 +620,44 @@ def run(run):
                     # if it returns for a negative it must be the documented
                     # two's-complement form of some width, or at least finite
                     run.count('termination.negative_returned')
+        # ... and whatever the sink's send() *returns* (a socket reports how
+        # many bytes it took; other sinks return None, a bool, anything):
+        # encoding terminates - by returning or by raising
+        class ReturningSink(object):
+            def __init__(self, rets):
+                self.rets, self.calls, self.n = rets, 0, 0
+
+            def send(self, data):
+                self.n += len(data)
+                r = self.rets[min(self.calls, len(self.rets) - 1)]
+                self.calls += 1
+                if self.n > 10 ** 6:
+                    raise StepBudgetExceededBySink()
+                return r if r != 'len' else len(data)
+
+        class StepBudgetExceededBySink(BaseException):
+            pass
+        rets_list = [[None], ['len'], [1], [0], [2, 1], [1, 1, 1, 1], [-1],
+                     [True], [False], [10 ** 9], ['1'], [1.0]]
+        for j, rets in enumerate(rets_list):
+            if not run.mine(j):
+                continue
+            for T, name in ((VarInt, 'VarInt'), (VarLong, 'VarLong')):
+                for n in (1, 300, 2 ** 14, 2 ** 21 + 5, 2 ** 31 - 1):
+                    sink = ReturningSink(rets)
+                    try:
+                        kind, res = budgeted(mon, T.send, n, sink)
+                    except StepBudgetExceededBySink:
+                        kind, res = 'budget', 'more than 10^6 bytes sent'
+                    run.case(('term-ret', name, n, repr(rets)))
+                    run.count('termination.sink_return_values')
+                    if kind == 'budget':
+                        run.violation(
+                            'encode/nontermination/sink-return-value',
+                            '%s.send(n) did not terminate: the sink\'s send() '
+                            'returned %r' % (name, rets),
+                            {'n': n, 'where': res, 'send_calls': sink.calls})
+                        break
         run.count('termination.line_events', mon.events)
     # ---- a failing sink must not poison later encodings ---------------------
     class FailingSink(object):
